@@ -428,6 +428,21 @@ pub fn record_states(seed: u64, count: usize) -> (Vec<Value>, Vec<Value>) {
         if rng.gen::<f64>() < 0.25 { s.insert("static_regularization_enable".into(), json!(false)); }
         if rng.gen::<f64>() < 0.25 { s.insert("iterative_refinement_enable".into(), json!(false)); }
         if rng.gen::<f64>() < 0.25 { s.insert("equilibrate_enable".into(), json!(false)); }
+        // second-order cones whose rows are tiny (no equilibration): slack << multiplier, so the scaling has eta^2 far below
+        // 1e-8 - the regime in which a floor or a regulariser on one side of the expansion would show
+        if rng.gen::<f64>() < 0.2 && p.cones.iter().any(|c| matches!(c, ConeSpec::Soc(d) if *d > 4)) {
+            let f = [1e-5, 1e-6, 1e-7][rng.gen_range(0..3)];
+            let mut a = p.A.to_dense();
+            let mut off = 0;
+            for c in &p.cones {
+                let d = c.numel();
+                if matches!(c, ConeSpec::Soc(dd) if *dd > 4) { for i in off..off + d { for v in a[i].iter_mut() { *v *= f; } p.b[i] *= f; } }
+                off += d;
+            }
+            p.A = Csc::from_dense(&a, p.m(), p.n());
+            s.insert("equilibrate_enable".into(), json!(false));
+            p.tag.push_str("+tinysoc");
+        }
         p.settings = Value::Object(s);
         let k = [0u32, 1, 2, 3, 5, 8, 200][rng.gen_range(0..7)];
         let first = if rng.gen::<f64>() < 0.4 { Some([1u32, 3, 200][rng.gen_range(0..3)]) } else { None };
